@@ -95,6 +95,50 @@ theorem reassembly_parts (H : Bytes → Bytes) (data : Bytes) (ps : Nat) (hps : 
   rw [← hseq] at this
   exact ⟨this.1, this.2.1, this.2.2.1⟩
 
+/-- `NewPartSetFromData` itself: for a non-empty block it returns the complete set holding
+exactly those parts under that header, and reading it gives the block back; for zero-length
+data it panics (nil root node in `SimpleProofsFromByteSlices`). -/
+theorem fromData_spec (H : Bytes → Bytes) (data : Bytes) (ps : Nat) (hps : 0 < ps) :
+    (data = [] → fromData H data ps = .error .nilDeref) ∧
+    (data ≠ [] → ∃ s, fromData H data ps = .ok s ∧ s.header = headerOf H data ps ∧
+      s.parts = (mkParts H data ps).map some ∧ s.isComplete = true ∧ s.reader = .ok data ∧
+      s.bits = s.parts.map Option.isSome ∧ s.count = s.parts.countP Option.isSome) := by
+  constructor
+  · intro hd; subst hd
+    simp [fromData, (numParts_eq_zero 0 ps hps).mpr rfl]
+  · intro hd
+    have hn : numParts data.length ps ≠ 0 := by
+      intro h0
+      exact hd (List.eq_nil_of_length_eq_zero ((numParts_eq_zero _ _ hps).mp h0))
+    refine ⟨_, by simp only [fromData, if_neg hn]; rfl, rfl, rfl, ?_, ?_, ?_, ?_⟩
+    · simp [PartSet.isComplete]
+    · have := reader_of_full H data ps hps
+        { total := numParts data.length ps, hash := (proofsAux H (split data ps)).1,
+          parts := ((List.range (numParts data.length ps)).map
+            (partOf H (split data ps) (proofsAux H (split data ps)).2)).map some,
+          bits := List.replicate (numParts data.length ps) true,
+          count := numParts data.length ps }
+        (by simp [PartSet.isComplete]) (by rw [List.map_map]; rfl)
+      rw [if_neg hd] at this
+      exact this
+    · simp only [List.map_map]
+      apply List.ext_getElem?
+      intro i
+      simp only [List.getElem?_replicate, List.getElem?_map]
+      by_cases hi : i < numParts data.length ps
+      · simp [hi]
+      · simp [hi]
+    · symm
+      have : ∀ o ∈ ((List.range (numParts data.length ps)).map
+            (partOf H (split data ps) (proofsAux H (split data ps)).2)).map some,
+          Option.isSome o = true := by
+        intro o ho
+        simp only [List.mem_map] at ho
+        obtain ⟨q, _, rfl⟩ := ho
+        rfl
+      rw [List.countP_eq_length.mpr this]
+      simp
+
 /-! ## (2) rejection, duplicates, out-of-range: the set is never corrupted -/
 
 /-- `AddPart` stores the part iff: index in range, slot empty, proof index/total consistent with
@@ -171,6 +215,68 @@ theorem duplicate_false_unchanged (H : Bytes → Bytes) (s : PartSet) (p q : Par
 example : ∃ (s : PartSet) (p : Part), 0 ≤ p.index ∧ p.index < (s.total : Int) ∧
     s.parts[p.index.toNat]? = some none ∧ p.proof.index ≠ p.index :=
   ⟨fromHeader ⟨2, [1]⟩, ⟨1, [9], ⟨2, 0, [], []⟩⟩, by decide, by decide, by decide, by decide⟩
+
+example : ∃ (H : Bytes → Bytes) (s : PartSet) (p : Part), 0 ≤ p.index ∧ p.index < (s.total : Int) ∧
+    s.parts[p.index.toNat]? = some none ∧ p.proof.verify H s.hash p.bytes = false :=
+  ⟨id, fromHeader ⟨2, [1]⟩, ⟨1, [9], ⟨2, 1, [], []⟩⟩, by decide, by decide, by decide, by decide⟩
+
+example : ∃ (s : PartSet) (p q : Part), 0 ≤ p.index ∧ p.index < (s.total : Int) ∧
+    s.parts[p.index.toNat]? = some (some q) :=
+  ⟨⟨2, [1], [none, some ⟨1, [9], ⟨2, 1, [], []⟩⟩], [false, true], 1⟩, ⟨1, [8], ⟨2, 1, [], []⟩⟩,
+    ⟨1, [9], ⟨2, 1, [], []⟩⟩, by decide, by decide, by decide⟩
+
+/-- A part that passed `Part.ValidateBasic` (what the consensus reactor runs first) never makes
+`AddPart` panic on a well-formed set: the negative-index panic is the only one. -/
+theorem no_panic_after_validate (H : Bytes → Bytes) (s : PartSet) (p : Part)
+    (hlen : s.parts.length = s.total) (hvb : p.validateBasic = .ok) :
+    (addPart H s p).1 ≠ .panicRange ∧ (addPartOpt H s (some p)).1 ≠ .panicNil := by
+  have hidx : 0 ≤ p.index := by
+    unfold Part.validateBasic at hvb
+    split at hvb
+    · cases hvb
+    · omega
+  constructor
+  · by_cases ha : Accepts H s p
+    · rw [addPart_of_accepts H s p ha]; simp
+    · unfold addPart
+      by_cases c1 : p.index ≥ (s.total : Int)
+      · rw [if_pos c1]; simp
+      · rw [if_neg c1, if_neg (by omega)]
+        simp only
+        have hlt : p.index.toNat < s.parts.length := by rw [hlen]; omega
+        rw [List.getElem?_eq_getElem hlt]
+        cases s.parts[p.index.toNat] with
+        | some q => simp
+        | none =>
+          simp only
+          split
+          · simp
+          · split
+            · simp
+            · split <;> simp
+  · simp only [addPartOpt]
+    by_cases ha : Accepts H s p
+    · rw [addPart_of_accepts H s p ha]; simp
+    · unfold addPart
+      by_cases c1 : p.index ≥ (s.total : Int)
+      · rw [if_pos c1]; simp
+      · rw [if_neg c1, if_neg (by omega)]
+        simp only
+        cases s.parts[p.index.toNat]? with
+        | none => simp
+        | some o =>
+          cases o with
+          | some q => simp
+          | none =>
+            simp only
+            split
+            · simp
+            · split
+              · simp
+              · split <;> simp
+
+example : ∃ (s : PartSet) (p : Part), s.parts.length = s.total ∧ p.validateBasic = .ok :=
+  ⟨fromHeader ⟨2, [1]⟩, ⟨1, [9], ⟨2, 1, List.replicate 32 0, [List.replicate 32 1]⟩⟩, by decide, by decide⟩
 
 /-! ## (3) soundness: accepted bytes are the block's bytes, or here is a collision -/
 
